@@ -254,6 +254,7 @@ def lastIndexOf (E : Env) (r : Recv) (args : List Val) : Res :=
   let start := number E (argAt args 1)
   if start.isInf then .int (lastIndexRune value target) else
   let s0 := if start.i < 0 then 0 else start.i
+  let s0 := if s0 > length then length else s0                                  -- fix 6684245: clamp before adding
   let end0 := wrap64 (s0 + target.length)
   let end1 := if end0 > length then length else end0
   if end1 < 0 then .panic                                                       -- value[:end] with end < 0
@@ -303,14 +304,15 @@ def substring (E : Env) (r : Recv) (args : List Val) : Res :=
   let (start, end_) := if start > end_ then (end_, start) else (start, end_)
   .str (U (encodeRunes (runeSlice target start end_)))
 
-/-- builtinStringSubstr: RUNE offsets, no checkObjectCoercible, int64 `start+length` may wrap -/
+/-- builtinStringSubstr: RUNE offsets, no checkObjectCoercible; after fix d18503f the cap test is
+    `length >= size-start`, which cannot overflow -/
 def substr (E : Env) (r : Recv) (args : List Val) : Res :=
   let target := decodeRunes (thisString E r)
   let size : Int := target.length
   let (start, length) := rangeStartLength E args size
   if start ≥ size then .str [] else
   if length ≤ 0 then .str [] else
-  let length := if wrap64 (start + length) ≥ size then size - start else length
+  let length := if length ≥ size - start then size - start else length
   let hi := wrap64 (start + length)
   if hi < start then .panic                                                     -- slice bounds out of range
   else .str (U (encodeRunes (runeSlice target start hi)))
